@@ -177,6 +177,75 @@ class Terms:
         return self.of_place(op.place, depth)
 
 
+class PosTerms(Terms):
+    """Flow-sensitive variant: a local with several definitions is resolved to
+    its nearest dominating definition when no other definition can reach the
+    use without passing it (straight-line reassignment such as `pb /= 9`)."""
+
+    def __init__(self, body):
+        Terms.__init__(self, body)
+        self.c = cfg(body)
+        self.pos = None
+
+    def at(self, bb, idx):
+        self.pos = (bb, idx if idx is not None else 1 << 30)
+        self.memo = {}
+        return self
+
+    def of_local(self, l, depth=0):
+        ds = self.defs.get(l, [])
+        if len(ds) <= 1 or self.pos is None or depth > 60:
+            return Terms.of_local(self, l, depth)
+        ub, ui = self.pos
+        best = None
+        for (bb, i, node) in ds:
+            ii = (1 << 29) if i == "call" else i
+            if bb == ub and ii < ui:
+                dom = True
+            elif bb != ub and self.c.dominates(bb, ub):
+                dom = True
+            else:
+                dom = False
+            if not dom:
+                continue
+            if best is None:
+                best = (bb, i, node, ii)
+            else:
+                # later = dominated by the current best
+                if (bb == best[0] and ii > best[3]) or (bb != best[0] and self.c.dominates(best[0], bb)):
+                    best = (bb, i, node, ii)
+        if best is None:
+            return Terms.of_local(self, l, depth)
+        # another definition reaching the use around `best` makes it ambiguous
+        for (bb, i, node) in ds:
+            if (bb, i) == (best[0], best[1]):
+                continue
+            ii = (1 << 29) if i == "call" else i
+            before_best = (bb == best[0] and ii < best[3]) or (bb != best[0] and self.c.dominates(bb, best[0]))
+            if before_best:
+                continue
+            if bb == ub and ii >= ui and not (self.c.reachable_from(bb) & {ub} and ub in self.c.loop_blocks_of(ub)):
+                continue
+            if ub in self.c.reachable_from(bb, avoid=[best[0]] if best[0] != bb else []) or bb == ub:
+                return Terms.of_local(self, l, depth)
+        saved = self.pos
+        self.pos = (best[0], best[3])
+        try:
+            r = self.of_def(best[0], best[1], best[2], depth + 1)
+        finally:
+            self.pos = saved
+        return r
+
+    def of_def(self, bb, i, node, depth):
+        saved = self.pos
+        if self.pos is not None:
+            self.pos = (bb, (1 << 29) if i == "call" else i)
+        try:
+            return Terms.of_def(self, bb, i, node, depth)
+        finally:
+            self.pos = saved
+
+
 def term_atoms(t, out=None):
     """Leaves of a term: calls, args, constants."""
     if out is None:
